@@ -9,7 +9,8 @@ import numpy as np
 
 import drvlib as D
 from incomplete_cooperative import coalition_ids as CI
-from incomplete_cooperative.coalitions import (Coalition, disjoint_coalitions, get_sub_coalitions, get_super_coalitions)
+from incomplete_cooperative.coalitions import (Coalition, all_coalitions, disjoint_coalitions, exclude_coalition, get_sub_coalitions,
+                                               get_super_coalitions, grand_coalition, minimal_game_coalitions, player_to_coalition)
 from incomplete_cooperative.game import IncompleteCooperativeGame
 from incomplete_cooperative.game_properties import is_monotone_decreasing, is_sam, is_superadditive
 from incomplete_cooperative.supermodularity_check import check_supermodularity
@@ -39,6 +40,20 @@ def coal_item(tid, n, c):
         t["id_subs"] = [int(x) for x in CI.sub_coalitions(c, n)]
         t["supers"] = [int(x.id) for x in get_super_coalitions(co, n)]
         t["id_supers"] = [int(x) for x in CI.super_coalitions(c, n)]
+    return guarded(t, body)
+
+
+def helper_item(tid, n, c):
+    """module-level helpers: all coalitions, grand coalition, minimal-game coalitions, singleton of a player, coalitions avoiding c"""
+    t = {"tid": tid, "kind": "helper", "c": c, "exc": "", "all": [], "grand": -1, "minimal": [], "singles": [], "avoid": [], "hash_ok": 0}
+
+    def body():
+        t["all"] = [int(x.id) for x in all_coalitions(n)]
+        t["grand"] = int(grand_coalition(n).id)
+        t["minimal"] = [int(x.id) for x in minimal_game_coalitions(n)]
+        t["singles"] = [int(player_to_coalition(i).id) for i in range(n)]
+        t["avoid"] = [int(x.id) for x in exclude_coalition(Coalition(c), all_coalitions(n))]
+        t["hash_ok"] = int(Coalition(c) in {Coalition(c), Coalition(0)} and len({Coalition(c), Coalition(c)}) == 1)
     return guarded(t, body)
 
 
@@ -117,6 +132,9 @@ def main():
         for c in range(NC):
             tid += 1
             items.append(coal_item(tid, n, c))
+        for c in (range(NC) if n <= 5 else [rng.randrange(NC) for _ in range(16)]):
+            tid += 1
+            items.append(helper_item(tid, n, c))
         pairs = list(itertools.product(range(NC), repeat=2)) if n <= a.all_pairs_max_n else \
             [(rng.randrange(NC), rng.randrange(NC)) for _ in range(a.pair_samples)]
         for x, y in pairs:
